@@ -230,3 +230,256 @@ def component_case(v, comp, N, lazy):
     if o["kind"] == "accept":
         asserts.append(("kind_preserved", v.holds(is_frame(o["out"]))))
     return dict(obs=o, asserts=asserts, facts=dict(kind=o["kind"], reason=o.get("reason"), reasons=o.get("reasons")))
+
+
+def standard_cases(tier):
+    """(tid, base template fn, args) for the schema shapes shared by C04 and C06"""
+    import itertools
+
+    ts = []
+    N = 2
+    for kind, cname in (("float", "in_range"), ("float", "ne"), ("int", "ge"), ("str", "str_matches"), ("str", "isin")):
+        for lazy in (False, True):
+            ts.append((f"S/{kind}/{cname}/lazy={int(lazy)}/N={N}", series_case, (kind, cname, N, True, None, lazy)))
+    for arr in (["a", "b"], ["b", "a"], ["a", "b", "x"], ["b"]):
+        for strict in (False, True, "filter"):
+            for lazy in (False, True):
+                ts.append((f"F/{''.join(arr)}/strict={strict}/lazy={int(lazy)}/N={N}", frame_case, (arr, strict, False, N, {"lazy": lazy})))
+    for vc, ic in itertools.product((False, True), repeat=2):
+        for lazy in (False, True):
+            ts.append((f"SI/val_coerce={int(vc)}/idx_coerce={int(ic)}/lazy={int(lazy)}/N={N}", series_index_case, (N, lazy, vc, ic)))
+    for coerce, a_kind in ((None, "float"), ("col", "int"), ("schema", "int")):
+        for default in (False, True):
+            for add_missing, arr in ((False, ["a", "b"]), (True, ["b"]), (False, ["a", "b", "x"])):
+                for strict in (False, "filter"):
+                    for drop in (False, True):
+                        for index in (None, "coerce"):
+                            c = dict(coerce=coerce, a_kind=a_kind, default=default, add_missing=add_missing, strict=strict, drop=drop, index=index)
+                            n_on = sum([coerce is not None, default, add_missing, strict == "filter", drop, index is not None])
+                            if n_on > (2 if tier == "quick" else 6) or (tier == "quick" and n_on == 2 and index and drop):
+                                continue
+                            for lazy in ((False, True) if not drop else (True,)):
+                                cc = dict(c, lazy=lazy, distinct_labels=drop)
+                                tid = "P/" + "".join(arr) + "/" + "/".join(f"{k}={v}" for k, v in cc.items() if k != "distinct_labels")
+                                ts.append((tid, parse_case, (arr, N, cc)))
+    for comp in ("column", "column_coerce", "column_default", "index", "index_coerce", "multiindex", "multiindex_coerce"):
+        for lazy in (False, True):
+            ts.append((f"K/{comp}/lazy={int(lazy)}/N={N}", component_case, (comp, N, lazy)))
+    return ts
+
+
+# ------------------------------------------------------------------ schema fingerprint (C05 C06 C15)
+CHECK_ATTRS = ("name", "error", "element_wise", "ignore_na", "n_failure_cases", "raise_warning", "groupby", "groups", "title", "description")
+COMP_ATTRS = ("name", "coerce", "nullable", "unique", "required", "regex", "report_duplicates", "default", "title", "description",
+              "drop_invalid_rows", "metadata")
+SCHEMA_ATTRS = ("name", "strict", "ordered", "coerce", "unique", "report_duplicates", "unique_column_names", "add_missing_columns",
+                "title", "description", "drop_invalid_rows", "metadata")
+
+
+def _fp_check(c):
+    return (type(c).__name__, tuple((a, repr(getattr(c, a, None))) for a in CHECK_ATTRS),
+            repr(sorted((k, repr(x)) for k, x in (getattr(c, "statistics", None) or {}).items())),
+            repr(sorted((k, repr(x)) for k, x in (getattr(c, "_check_kwargs", None) or {}).items())),
+            getattr(getattr(c, "_check_fn", None), "__qualname__", type(getattr(c, "_check_fn", None)).__name__))
+
+
+def _fp_comp(c):
+    if c is None:
+        return None
+    if hasattr(c, "indexes"):  # MultiIndex
+        return ("MultiIndex", tuple(_fp_comp(i) for i in c.indexes), repr(getattr(c, "coerce", None)), repr(getattr(c, "strict", None)),
+                repr(getattr(c, "ordered", None)), repr(getattr(c, "unique", None)), repr(getattr(c, "name", None)))
+    return (type(c).__name__, repr(getattr(c, "dtype", None)), tuple((a, repr(getattr(c, a, None))) for a in COMP_ATTRS),
+            tuple(_fp_check(k) for k in (getattr(c, "checks", None) or [])), len(getattr(c, "parsers", None) or []))
+
+
+def fingerprint(schema):
+    """structural dump of a schema object graph; symbolic attribute values print as their terms"""
+    if hasattr(schema, "columns") and isinstance(getattr(schema, "columns"), dict) and not hasattr(schema, "indexes"):
+        return ("DataFrameSchema", repr(schema.dtype), tuple((a, repr(getattr(schema, a, None))) for a in SCHEMA_ATTRS),
+                tuple((repr(k), _fp_comp(c)) for k, c in schema.columns.items()), _fp_comp(schema.index),
+                tuple(_fp_check(k) for k in schema.checks), len(getattr(schema, "parsers", None) or []))
+    if hasattr(schema, "index") and not hasattr(schema, "columns"):
+        return ("SeriesSchema", _fp_comp(schema), _fp_comp(getattr(schema, "index", None)))
+    return _fp_comp(schema)
+
+
+def config_fingerprint():
+    from pandera.config import get_config_context, get_config_global
+
+    return (repr(get_config_context(validation_depth_default=None)), repr(get_config_global()))
+
+
+# ------------------------------------------------------------------ legal but unusual combinations (C06 a)
+def unusual_case(v, which, N):
+    lazy = True
+    lo = v.int("lo")
+    if which == "drop_dtype_error_frame":  # docs/source/drop_invalid_rows.md, first example: Column(int) on non-int data
+        df = v.frame([("a", "float")], N, labels="l", distinct_labels=True)
+        schema = pa.DataFrameSchema({"a": pa.Column(int, Check.ge(lo))}, drop_invalid_rows=True)
+    elif which == "drop_dtype_error_series":
+        df = v.series("a_", "float", N, sname="a", labels="l", distinct_labels=True)
+        schema = pa.SeriesSchema(int, Check.ge(lo), drop_invalid_rows=True, name="a")
+    elif which == "drop_dtype_error_column":
+        df = v.frame([("a", "float")], N, labels="l", distinct_labels=True)
+        schema = pa.Column(int, Check.ge(lo), name="a", drop_invalid_rows=True)
+    elif which == "drop_missing_column":
+        df = v.frame([("a", "float")], N, labels="l", distinct_labels=True)
+        schema = pa.DataFrameSchema({"a": pa.Column(float, Check.ge(lo), nullable=True), "b": pa.Column(int)}, drop_invalid_rows=True)
+    elif which == "drop_scalar_check":
+        df = v.frame([("a", "float", False)], N, labels="l", distinct_labels=True)
+        c = v.int("c")
+        schema = pa.DataFrameSchema({"a": pa.Column(float, Check(lambda s: s.max() < c))}, drop_invalid_rows=True)
+    elif which == "lazy_joint_unique_dup_labels":
+        df = v.frame([("a", "float"), ("b", "int")], N, labels="l")
+        schema = pa.DataFrameSchema({"a": pa.Column(float, nullable=True), "b": pa.Column(int)}, unique=["a", "b"])
+    elif which == "eager_joint_unique_dup_labels":
+        lazy = False
+        df = v.frame([("a", "float"), ("b", "int")], N, labels="l")
+        schema = pa.DataFrameSchema({"a": pa.Column(float, nullable=True), "b": pa.Column(int)}, unique=["a", "b"])
+    elif which == "wide_check_dup_labels":
+        df = v.frame([("a", "float", False), ("b", "int")], N, labels="l")
+        schema = pa.DataFrameSchema({"a": pa.Column(float), "b": pa.Column(int)}, checks=Check(lambda d: d["a"] >= d["b"]))
+    elif which == "strict_regex":
+        lazy = bool(v.choice("lazy", [False, True]))
+        df = v.frame([("a1", "float"), ("ba3", "float"), ("b", "int")], N, labels="l")
+        schema = pa.DataFrameSchema({"^a[0-9]$": pa.Column(float, Check.ge(lo), nullable=True, regex=True), "b": pa.Column(int)}, strict=True)
+    elif which == "regex_no_match":
+        lazy = bool(v.choice("lazy", [False, True]))
+        df = v.frame([("b", "int")], N, labels="l")
+        schema = pa.DataFrameSchema({"^a[0-9]$": pa.Column(float, Check.ge(lo), regex=True, required=v.bool("req")), "b": pa.Column(int)})
+    elif which == "wrong_kind_check_arg":
+        lazy = bool(v.choice("lazy", [False, True]))
+        df = v.frame([("a", "float")], N, labels="l")
+        schema = pa.DataFrameSchema({"a": pa.Column(float, Check.ge("x"), nullable=True)})
+    elif which == "unique_nullable_drop":
+        df = v.frame([("a", "float")], N, labels="l", distinct_labels=True)
+        schema = pa.DataFrameSchema({"a": pa.Column(float, nullable=v.bool("nullable"), unique=True)}, drop_invalid_rows=True)
+    else:
+        raise KeyError(which)
+    snap = H.snapshot(df)
+    fp0, cfg0 = fingerprint(schema), config_fingerprint()
+    o = H.outcome(lambda: schema.validate(df, lazy=lazy))
+    asserts = [("channel", v.holds(channel_ok(o))), ("input_unchanged", H.equal_to_snapshot(v, df, snap)),
+               ("schema_unchanged", v.holds(fingerprint(schema) == fp0)), ("config_unchanged", v.holds(config_fingerprint() == cfg0))]
+    return dict(obs=o, asserts=asserts, facts=dict(kind=o["kind"], reason=o.get("reason"), reasons=o.get("reasons"), msg=o.get("msg"), which=which))
+
+
+UNUSUAL = ("drop_dtype_error_frame", "drop_dtype_error_series", "drop_dtype_error_column", "drop_missing_column", "drop_scalar_check",
+           "lazy_joint_unique_dup_labels", "eager_joint_unique_dup_labels", "wide_check_dup_labels", "strict_regex", "regex_no_match",
+           "wrong_kind_check_arg", "unique_nullable_drop")
+
+
+# ------------------------------------------------------------------ fault schedules over user callbacks (C06 b)
+class Injected(RuntimeError):
+    pass
+
+
+def fault_case(v, shape, lazy, N, max_faults):
+    """User callbacks (vectorised check, element-wise check, dataframe check, parser) consult one symbolic flag per
+    invocation; the engine explores every fault schedule with at most `max_faults` faults."""
+    calls = []
+    flags = []
+
+    def maybe_fail(tag):
+        j = len(calls)
+        calls.append(tag)
+        f = v.bool(f"fail{j}")
+        flags.append(f)
+        if v.sym and max_faults is not None:
+            from symx import eng
+
+            eng().assume(z3.AtMost(*[z3.Bool(f"fail{k}") for k in range(12)], max_faults))
+        if f:
+            raise Injected(f"injected@{j}:{tag}")
+
+    def vec(tag):
+        def fn(x):
+            maybe_fail(tag)
+            return x >= 0
+        return fn
+
+    def elem(tag):
+        def fn(x):
+            maybe_fail(tag)
+            return x >= 0
+        return fn
+
+    def dfc(tag):
+        def fn(d):
+            maybe_fail(tag)
+            return d["b"] >= 0
+        return fn
+
+    def parser(tag):
+        def fn(s):
+            maybe_fail(tag)
+            return s
+        return fn
+
+    if shape == "frame" or shape == "frame_regex":
+        regex = shape == "frame_regex"
+        df = v.frame([("a1", "float"), ("b", "int")], N, labels="l", distinct_labels=True)
+        schema = pa.DataFrameSchema(
+            {("^a[0-9]$" if regex else "a1"): pa.Column(float, [Check(vec("c1")), Check(elem("el"), element_wise=True)], nullable=True, regex=regex, coerce=True),
+             "b": pa.Column(int, Check(vec("c2")))}, checks=Check(dfc("df")))
+        user_checks = 4
+    elif shape == "series":
+        df = v.series("x", "float", N, sname="s", labels="l", distinct_labels=True)
+        schema = pa.SeriesSchema(float, [Check(vec("c1")), Check(elem("el"), element_wise=True)], nullable=True, name="s",
+                                 index=pa.Index(int, Check(vec("ix"))))
+        user_checks = 3
+    elif shape == "parser":
+        df = v.frame([("a1", "float"), ("b", "int")], N, labels="l", distinct_labels=True)
+        from pandera import Parser
+
+        schema = pa.DataFrameSchema({"a1": pa.Column(float, Check(vec("c1")), parsers=Parser(parser("p1")), nullable=True), "b": pa.Column(int)},
+                                    parsers=Parser(parser("pdf")))
+        user_checks = 1
+    elif shape == "groupby":
+        df = v.frame([("a1", "float", False), ("b", "int")], N, labels="l", distinct_labels=True)
+
+        def gfn(groups):
+            maybe_fail("grp")
+            return True
+
+        schema = pa.DataFrameSchema({"a1": pa.Column(float, Check(gfn, groupby=lambda d: (maybe_fail("gby"), d.groupby("b"))[1])), "b": pa.Column(int)})
+        user_checks = 1
+    else:
+        raise KeyError(shape)
+    snap = H.snapshot(df)
+    fp0, cfg0 = fingerprint(schema), config_fingerprint()
+    o = H.outcome(lambda: schema.validate(df, lazy=lazy))
+    faults = [bool(f) if not v.sym else None for f in flags]
+    n_injected = len([c for c in calls]) and sum(1 for k in range(len(flags)) if _flag_true(v, flags[k]))
+    asserts = [("fault/channel", v.holds(channel_ok(o) or (shape == "parser" and o["kind"] == "leak:Injected"))),
+               ("fault/input_unchanged", H.equal_to_snapshot(v, df, snap)),
+               ("fault/schema_unchanged", v.holds(fingerprint(schema) == fp0)),
+               ("fault/config_unchanged", v.holds(config_fingerprint() == cfg0))]
+    if n_injected and shape != "parser":
+        # a raising user check is reported as a failed check
+        asserts.append(("fault/reported_as_failed_check", v.holds(o["kind"] in ("SchemaError", "SchemaErrors"))))
+        if o["kind"] == "SchemaErrors":
+            asserts.append(("fault/reason_check_error", v.holds("CHECK_ERROR" in o["reasons"])))
+    if n_injected and shape == "parser":
+        asserts.append(("fault/parser_error_propagates", v.holds(o["kind"] != "accept")))
+    return dict(obs=o, asserts=asserts, facts=dict(kind=o["kind"], reason=o.get("reason"), reasons=o.get("reasons"), calls=list(calls),
+                                                   injected=n_injected, msg=o.get("msg")))
+
+
+def _flag_true(v, f):
+    """the fault flag of an invocation that happened is path-concrete: the callback branched on it"""
+    if not v.sym:
+        return bool(f)
+    from symx import eng
+
+    return z3.is_true(z3.simplify(z3.substitute(f.z))) if False else _decided(eng(), f.z)
+
+
+def _decided(e, z):
+    for c in e.pc:
+        if c.eq(z):
+            return True
+        if z3.is_not(c) and c.arg(0).eq(z):
+            return False
+    return False
